@@ -12,6 +12,24 @@ T = {
          "carrier (extended reals) SMA, WMA, SD, MAD, BB equal mean / weighted mean / population variance / mean absolute deviation / mean +- m*sd "
          "of the last min(t,n) inputs for every stream. Rounding part (tau) validated by T2 on generated streams: partial.",
          "Rocq proofs (ring-buffer rotation invariant, induction over streams; exact-arithmetic refinement) + bit-exact correspondence + exact-rational tolerance check"),
+ "C02": ("Theorems for every number type (bit-exact for binary64): EMA returns its first input and then k*x+(1-k)*prev with k=2/(n+1); TrueRange scalar "
+         "and bar definitions; ATR = EMA(TR), MACD, KC, CE equal the hand wiring of standalone streams for every period combination. Agreement "
+         "of the float recursion with exact evaluation within tau(t): validated by T2 against the exact-rational instance (partial).",
+         "Rocq proofs (stream induction, any carrier) + bit-exact correspondence + exact-rational tolerance check"),
+ "C10": ("Theorems for every number type: Next<&T> of the 11 close-only indicators equals Next<f64> on close (Minimum: low, Maximum: high) as an "
+         "equation of state and output; bars agreeing on the documented read-set are indistinguishable; open is never read; DataItem = any other "
+         "implementor. One-price-bar = scalar path for FAST/SLOW/TR/ATR/KC is checked on the implementation (relational) - partial on that component.",
+         "Rocq proofs (definitional equalities over 22 kinds) + bit-exact correspondence + relational checks on the implementation"),
+ "C13": ("Theorems: the exact-arithmetic invariants (running state = from-scratch statistic of the current window) are preserved by every step with "
+         "no bound on the stream length; variance never negative; Minimum exact forever. Float drift within tau(t): validated on streams of "
+         "2*10^4 (quick) / 2*10^6 (thorough) inputs generated identically on both sides, against a fresh exact instance on the current window (partial).",
+         "Rocq proofs (unbounded invariants) + twin-generator long-stream correspondence (checkpoints + hash of all outputs) + exact-rational window recomputation"),
+ "C15": ("Theorems for every number type (bit-exact): SlowStochastic, ATR, MACD, PPO, KC (scalar and bar), CE, BB (half-width = m*SD, middle = SD's mean), "
+         "CCI equal the hand wiring of the standalone streams; over exact reals BB.average = SMA (bb_average_is_sma).",
+         "Rocq proofs (stream induction, any carrier) + bit-exact correspondence + composite-vs-public-parts comparison on the implementation"),
+ "C17": ("Theorems: over exact reals the last output of SMA, WMA, SD, MAD, BB is a function of the last n inputs (two histories sharing that suffix give "
+         "equal outputs); Minimum exactly, for any strict total order. ROC/ER/MFI/CCI/FAST: implementation-level suffix-vs-full comparison and T1 (partial).",
+         "Rocq proofs (corollaries of the refinement theorems) + bit-exact correspondence + suffix-vs-full comparison on the implementation"),
  "C04": ("Theorems for every number type: reset of any reachable state equals the constructor's state as a record for the 17 indicators without "
          "Minimum/Maximum inside (C04_reset_is_new), keeps parameters, is idempotent and a no-op on fresh instances; Minimum/Maximum reset is "
          "observationally equal to new on every continuation for every strict total order with top (C04_min_reset_equiv, C04_max_reset_equiv). "
